@@ -11,6 +11,9 @@ kind 1  (1 a pre yield ((record ...) per thread))   N threads hammer ONE real Fi
         This is TRACE VALIDATION of the schedules the OS happened to produce, not a proof.
 kind 2  (2 cap (resp ...) (op ...))   std::io::BufWriter over a scripted short-writing inner writer
         against Model/BufW.v (result, inner content and buffered bytes after every op)
+kind 3  (3 pre (op ...))   several O_APPEND writers on ONE path, file read back after every op:
+        op: (0 h (chunk ...)) append through appender h | (1 d) external OpenOptions::append write |
+            (2 h) build appender h in append mode while the others stay alive
 """
 
 SIZES = [0, 1, 1023, 1024, 1025, 2048, 5000]
@@ -25,12 +28,15 @@ RULE = ("kind 0 (sequential, compared after every call): sweep of every size in 
         "chunks each larger than the buffer, with none/yield_now/sleep between the chunks inside the encoder; "
         "x both modes x pre-existing content. kind 2: random op sequences (write_all/write/flush, data 0..2cap+3) "
         "on BufWriter capacities {0,1,2,3,4,8,16} over scripted short writes / Ok(0) / errors. "
-        "non-trivial = kind 0 with a non-empty record, kind 1 with >= 2 threads, kind 2 with >= 1 op; "
+        "kind 3 (shared file): histories of 3-10 ops over 1-3 append-mode appenders alive at the same time on one "
+        "path (built at different moments, rebuilt, appends alternating between them) and external O_APPEND writes "
+        "in between; the file after every op must be all bytes in call order. "
+        "non-trivial = kind 0 with a non-empty record, kind 3 with a write after a second writer appeared, kind 1 with >= 2 threads, kind 2 with >= 1 op; "
         "distinct = distinct case line")
 ASSUMPTIONS = [
     "the encoder is deterministic per record and issues one write_all per chunk (scripted encoder; PatternEncoder's own chunking does not matter by C04_append_flushes_whole_record)",
     "regular files on the local file system accept whole writes without error (oracle = []) in kind 0/1; short writes and errors are covered by the theorems and, for BufWriter alone, by kind 2",
-    "no other process writes the log file",
+    "other writers of the log file (kind 3: further append-mode appenders, external writers) all use O_APPEND; truncate-mode handles (no O_APPEND in the crate) are assumed to be the sole writer",
     "concurrent part: only the schedules produced by the OS during the run are observed (trace validation, not proof); the all-schedules claim rests on the Coq theorem over the model",
 ]
 TRUSTED = [
@@ -205,8 +211,46 @@ def bufw_cases(rng, tier):
     return out
 
 
+def shared_cases(rng, tier):
+    out = []
+    P = [[0], [1, b""], [1, b"pre-existing line\n"], [1, body(rng, 1030, True)]]
+    # the two canonical shapes, with record sizes around the buffer size
+    for pre in P:
+        for s1 in (1, 30, 1024, 1500):
+            for s2 in (1, 40, 1100):
+                a, b, c = body(rng, s1, True), body(rng, s2, True), body(rng, 7, True)
+                # old + new appender alive, straggler through the old one
+                out.append([3, pre, [[2, 0], [0, 0, [a]], [2, 1], [0, 1, [b]], [0, 0, [c]], [0, 1, [b"z"]]]])
+                # external writer between two appends
+                out.append([3, pre, [[2, 0], [0, 0, [a]], [1, b], [0, 0, [c]], [1, b"ext\n"], [0, 0, [b"z"]]]])
+    n = 250 if tier == "quick" else 4000
+    for _ in range(n):
+        ops = [[2, 0]]
+        built = {0}
+        budget = 9000
+        for _k in range(rng.range(2, 9)):
+            r = rng.below(10)
+            if r < 2:
+                h = rng.below(3)
+                h = min(h, max(built) + 1)
+                built.add(h)
+                ops.append([2, h])
+            elif r < 4:
+                d = body(rng, rng.choice([1, 5, 60, 1024, 1300]), True)
+                budget -= len(d)
+                ops.append([1, d])
+            else:
+                rec = seq_record(rng, True, max(budget, 0))
+                budget -= sum(len(x) for x in rec)
+                ops.append([0, rng.choice(sorted(built)), rec])
+        out.append([3, rng.choice(P), ops])
+    return out
+
+
 def corpus():
     return [
+        [3, [1, b"pre\n"], [[2, 0], [0, 0, [b"old-1\n"]], [2, 1], [0, 1, [b"new-1\n"]], [0, 0, [b"old-2\n"]],
+                            [1, b"external\n"], [0, 1, [b"a rather long record\n"]]]],
         # small record stays in the buffer unless flushed; 1024 bypasses; truncate then reopen in append mode
         [0, 0, 0, [1, b"OLD\n"], [[0, [b"a"]], [0, [b"b" * 1024]], [1, 1], [0, [b"c", b"", b"d"]], [1, 0], [0, [b"e"]]]],
         [0, 1, 1, [0], [[0, [b"hello"]], [0, [b""]], [0, [b"w" * 1500]]]],
@@ -215,7 +259,8 @@ def corpus():
 
 
 def cases(rng, tier):
-    return seq_cases(rng.fork("seq"), tier) + conc_cases(rng.fork("conc"), tier) + bufw_cases(rng.fork("bufw"), tier)
+    return (seq_cases(rng.fork("seq"), tier) + shared_cases(rng.fork("shared"), tier)
+            + conc_cases(rng.fork("conc"), tier) + bufw_cases(rng.fork("bufw"), tier))
 
 
 # ------------------------------------------------------------------ pipeline hooks
@@ -273,6 +318,12 @@ def compare(c, iv, mv):
         for k, (x, y) in enumerate(zip(iv, mv)):
             if x != y:
                 what = "build" if (c[0] == 0 and k == 0) else "op %d" % (k - 1 if c[0] == 0 else k)
+                if c[0] == 3 and isinstance(x, bytes) and isinstance(y, bytes):
+                    n = 0
+                    while n < min(len(x), len(y)) and x[n] == y[n]:
+                        n += 1
+                    return ("shared file after op %d (%s): file has %d bytes, model disk (all bytes in call order) "
+                            "%d bytes, first difference at offset %d" % (k, describe(c)["ops"][k], len(x), len(y), n))
                 if c[0] == 0 and isinstance(x, list) and isinstance(y, list) and len(x) == 2 and len(y) == 2:
                     return "after %s: file has %d bytes (ok=%s), model disk %d bytes (ok=%s)" % (
                         what, len(x[1]), x[0], len(y[1]), y[0])
@@ -286,6 +337,14 @@ def nontrivial(c):
         return any(op[0] == 0 and any(len(ch) > 0 for ch in op[1]) for op in c[4])
     if c[0] == 1:
         return len(c[4]) >= 2
+    if c[0] == 3:
+        second = False
+        for op in c[2][1:]:
+            if op[0] in (1, 2):
+                second = True
+            elif second:
+                return True
+        return False
     return len(c[3]) >= 1
 
 
@@ -298,6 +357,9 @@ def classify(c):
     if c[0] == 1:
         mx = max((len(ch) for t in c[4] for r in t for ch in r), default=0)
         return "conc threads=%d yield=%d maxchunk%s1024" % (len(c[4]), c[3], ">=" if mx >= 1024 else "<")
+    if c[0] == 3:
+        return "shared appenders=%d external=%s" % (len(set(op[1] for op in c[2] if op[0] == 2)),
+                                                    "yes" if any(op[0] == 1 for op in c[2]) else "no")
     return "bufwriter cap=%d" % c[1]
 
 
@@ -314,6 +376,11 @@ def describe(c):
                 "yield": ["none", "yield_now", "sleep 30us"][c[3]],
                 "threads": len(c[4]), "records_per_thread": [len(t) for t in c[4]],
                 "bytes_total": sum(len(ch) for t in c[4] for r in t for ch in r)}
+    if c[0] == 3:
+        return {"kind": "shared file (all writers O_APPEND)", "pre": None if c[1][0] == 0 else "%d bytes" % len(c[1][1]),
+                "ops": [("appender %d appends chunks " % op[1] + "+".join(str(len(ch)) for ch in op[2])) if op[0] == 0
+                        else ("external append %d bytes" % len(op[1])) if op[0] == 1
+                        else ("build appender %d (append mode)" % op[1]) for op in c[2]]}
     return {"kind": "bufwriter", "cap": c[1],
             "oracle": ["err" if r[0] else "acc %d" % r[1] for r in c[2]],
             "ops": [["write_all", "write", "flush"][op[0]] + (" %d" % len(op[1]) if op[0] < 2 else "") for op in c[3]]}
